@@ -136,7 +136,8 @@ MaxGainOK ==
   /\ \A v \in 0..(SumCap - 1) : MaxGainQ7(v + 1) <= MaxGainQ7(v)
   /\ \A v \in 0..SumCap : (MaxGainArg(v) >= 3967 <=> MaxGainQ7(v) = Int32Max - SafetyQ7) /\ (MaxGainArg(v) < 0 => MaxGainQ7(v) = -SafetyQ7)
   /\ \A v \in {0, SumCap}, g \in {0, 255} : PenaltyQ15(g, MaxGainQ7(v)) \in 0..(2048 * (255 + SafetyQ7))
-InvL_Tables == (s.t = "init" /\ Sys = "L") => LtpTablesOK /\ LtpGainSandwich /\ LtpAbsSumHard /\ MaxGainOK
+InvL_Tables == (s.t = "init" /\ Sys = "L") => LtpTablesOK /\ LtpAbsSumHard /\ MaxGainOK
+InvL_Sandwich == (s.t = "init" /\ Sys = "L") => LtpGainSandwich        \* encoder-only table (rate control of the LTP search)
 InvL_Log2Lin == s.t = "l2" =>
   /\ Log2LinSafe(s.x)                                                               \* the 3967 cut-off is exactly what keeps the result inside 32 bits
   /\ Log2Lin(s.x) \in 0..Int32Max
